@@ -212,6 +212,9 @@ class _ReadSourceGenerator:
 
             # Everything else - basic and composite types (and arrays of them)
             else:
+                if not current_block:
+                    # A block that starts after a structure, array or bit field may begin with alignment padding
+                    yield from align_to_field(field)
                 current_block.append(field)
 
             if current_offset is not None and size is not None and (not field.bits or bits_rollover):
